@@ -117,7 +117,7 @@ def report_fails(run, acc, mode, prog):
 # ---------------------------------------------------------------------------
 def run_rt(spec, acc):
     import sys
-    from vf.prog import Gen, Run
+    from vf.prog import Gen, Run, rearm_program
     from vf.inject import Injector, Burners
     from vf.rt import HostWatch
     from vf.props.C08 import clock_codes
@@ -195,6 +195,9 @@ def run_rt(spec, acc):
                 prng = random.Random(derive_seed(seed, 'prog', case))
                 g = Gen(prng, rt_safe=True, features=FEATURES)
                 prog = g.program()
+                if case % 16 == 7:
+                    prog = rearm_program(prng, rt=True)
+                    acc.count('rt_rearm_programs')
                 r = Run(prog, 'rt', on_done, tag=case)
                 runs.append((r, prog))
                 case += 1
@@ -335,12 +338,15 @@ def thread_sched_probes(clk, main, rng, tcx):
 
 
 def run_nrt(spec, acc):
-    from vf.prog import Gen, Run
+    from vf.prog import Gen, Run, rearm_program
     from sc3.base.main import main
     for i in iter_cases(spec):
         prng = case_rng(spec['seed'], 'C05', 'nrt', i)
         g = Gen(prng, rt_safe=False, nrt_only=True, features=FEATURES)
         prog = g.program()
+        if i % 12 == 5:
+            prog = rearm_program(prng)
+            acc.count('nrt_rearm_programs')
         main.reset()
         r = Run(prog, 'nrt', tag=i)
         try:
